@@ -379,7 +379,7 @@ func (ss *sess) walk(wn int, sites []site, withHooks bool, withExpiry bool) bool
 
 // Run is the C05 check.
 func Run(ctx *core.Ctx) {
-	ctx.Rule = "matrix: for every (population of other hooks in {none, 30 elsewhere, 300 incl. same-rectangle/overlapping/other keys}) x (fence shape in {BOUNDS rectangle, NEARBY POINT circle, polygon OBJECT}) x (DETECT in 31 non-empty subsets + default) x (MATCH, WHERE, COMMANDS variant) one fence is created (channel always; webhook + live with the same definition in a sample [quick] / always [thorough]) and a fixed script drives all 7 transitions by SET (none->in, in->in, in->out, out->out, out->out crossing, out->in, none->out; plus diagonal near-miss and inside-bounding-box-but-outside positions), FSET inside and outside, a non-matching id, a WHERE-false object, DEL of an inside object, PDEL, DROP; then random walks of 3 objects through 4-6 overlapping fences of mixed shape/DETECT/kind incl. expiry (EX 1). Every command is closed by markers; messages before the marker are compared with the Appendix C table (order, no others, id/object/fields). non-trivial = judged (command, fence) pair with >= 1 expected message; distinct key = (transition, DETECT set, command, delivery kind, fence shape, population)"
+	ctx.Rule = "matrix: for every (population of other hooks in {none, 30 elsewhere, 300 incl. same-rectangle/overlapping/other keys}) x (fence shape in {BOUNDS rectangle, NEARBY POINT circle, polygon OBJECT}) x (DETECT in 31 non-empty subsets + default) x (MATCH, WHERE, COMMANDS variant: all 20 [quick: all 20 without population, a rotating 5 of 20 with populations]) one fence is created (channel always; webhook + live with the same definition in a sample [quick] / always [thorough]) and a fixed script drives all 7 transitions by SET (none->in, in->in, in->out, out->out, out->out crossing, out->in, none->out; plus diagonal near-miss and inside-bounding-box-but-outside positions), FSET inside and outside, a non-matching id, a WHERE-false object, DEL of an inside object, PDEL, DROP; then random walks of 3 objects through 4-6 overlapping fences of mixed shape/DETECT/kind incl. expiry (EX 1). Every command is closed by markers; messages before the marker are compared with the Appendix C table (order, no others, id/object/fields). non-trivial = judged (command, fence) pair with >= 1 expected message; distinct key = (transition, DETECT set, command, delivery kind, fence shape, population)"
 	ctx.Assumptions = []string{
 		"positions keep a relative distance >= 0.15 (of the area half-size) from every area boundary; a path counts as crossing only if it gets >= 0.10 deep, as missing only if it stays >= 0.10 away, otherwise both outcomes are accepted",
 		"del is required only for objects that were inside (and matched MATCH/WHERE); drop only for default-DETECT fences; both are forbidden only when COMMANDS excludes them (del also when MATCH excludes the id)",
@@ -393,7 +393,7 @@ func Run(ctx *core.Ctx) {
 	}
 	pops := []string{"none", "p30", "p300"}
 	// workers (servers) per population: the 300-hook population is the slow one
-	workersOf := map[string]int{"none": ctx.Pick(3, 4), "p30": ctx.Pick(3, 4), "p300": ctx.Pick(6, 8)}
+	workersOf := map[string]int{"none": ctx.Pick(5, 4), "p30": ctx.Pick(2, 4), "p300": ctx.Pick(5, 8)}
 	shapes := []string{"rect", "circle", "poly"}
 	dsets := detectSets()
 	vs := variants()
@@ -408,9 +408,14 @@ func Run(ctx *core.Ctx) {
 		perPop := workersOf[pop]
 		// the scenario list of this population: the complete cross product, in a PRNG-determined order
 		var list []scenario
-		for _, sh := range shapes {
-			for _, d := range dsets {
-				for _, v := range vs {
+		for si, sh := range shapes {
+			for di, d := range dsets {
+				for vi, v := range vs {
+					// quick: the populated servers get every (shape, DETECT set) with a rotating
+					// quarter of the MATCH/WHERE/COMMANDS variants; the empty one gets all of them
+					if !ctx.Thorough() && pop != "none" && (vi+di+si*7+pi)%4 != 0 {
+						continue
+					}
 					list = append(list, scenario{shape: sh, detect: d, v: v})
 				}
 			}
